@@ -251,7 +251,45 @@ def body_ser(desc, F, *args):
     return None
 
 
-BODIES = {"purity-sparql": body_sparql, "purity-api": body_api, "purity-ser": body_ser}
+def untraced():
+    from ..driver import default_untraced
+    return default_untraced() + [Graph.parse]
+
+
+def body_from(desc, F, *args):
+    """a query with a dataset clause naming a document that is not a graph of the dataset (rdflib loads it into a scratch
+    graph for the duration of the query): the user's dataset must not receive it"""
+    import os
+    from rdflib.plugins.sparql.evaluate import evalQuery
+    from rdflib.plugins.sparql.processor import prepareQuery
+    ds = Dataset(default_union=desc["union"])
+    store = ds.store
+    i = 0
+    for gn in desc["data"]:
+        t = (F.iri(args[i]), F.iri(args[i + 1]), F.iri(args[i + 2]))
+        i += 3
+        if gn == "d":
+            ds.add(t)
+        else:
+            ds.add((t[0], t[1], t[2], NAMES[gn]))
+    doc = "file://" + os.path.join(os.path.dirname(os.path.dirname(os.path.abspath(__file__))), "data", "from_doc.ttl")
+    text = desc["text"].replace("DOC", doc)
+    q = c04.run_untraced(lambda: prepareQuery(text))
+    idents = [NAMES["d"], NAMES["g1"], NAMES["b1"], URIRef(doc)]
+    before = snapshot(store, idents)
+    for rep in (1, 2):
+        try:
+            res = evalQuery(ds, q)
+            list(res["bindings"]) if "bindings" in res else None
+        except Exception:
+            pass  # an unloadable source is not the subject; the dataset must be unchanged either way
+        r = same_snapshot(before, snapshot(store, idents))
+        if r:
+            return "a query with FROM changed the dataset (evaluation %d): %s" % (rep, r)
+    return None
+
+
+BODIES = {"purity-from": body_from, "purity-sparql": body_sparql, "purity-api": body_api, "purity-ser": body_ser}
 
 
 def obligations(tier, seed):
@@ -308,6 +346,17 @@ def obligations(tier, seed):
                 tag = extra.get("bits", [""])[0] if "bits" in extra else (c11.show(extra["path"]) if "path" in extra else "")
                 obs.append(dict(oid="api/%s/%s/%s%s" % ("union" if union else "plain", "+".join(data), read, "/" + tag if tag else ""),
                                 family="purity-api", desc=d, sig=[("x%d" % i, "i") for i in range(nsym)], budget=300))
+    # dataset clauses naming a loadable document
+    for union in (False, True):
+        for data in (["g1"], ["d", "g1"]):
+            for nm, text in (("from", "SELECT * FROM <DOC> WHERE { ?s ?p ?o }"),
+                             ("from-named", "SELECT * FROM NAMED <DOC> WHERE { GRAPH ?g { ?s ?p ?o } }"),
+                             ("from-both", "SELECT * FROM <urn:g1> FROM NAMED <DOC> WHERE { ?s ?p ?o }"),
+                             ("ask-from", "ASK FROM <DOC> { ?s ?p ?o }"),
+                             ("construct-from", "CONSTRUCT { ?s ?p ?o } FROM <DOC> WHERE { ?s ?p ?o }")):
+                obs.append(dict(oid="from/%s/%s/%s" % ("union" if union else "plain", "+".join(data), nm), family="purity-from",
+                                desc={"union": union, "data": data, "text": text}, sig=[("x%d" % i, "i") for i in range(3 * len(data))],
+                                budget=300))
     # shape-symbolic supplement
     whats = ["ds:" + f for f in FORMATS_DS] + ["g:" + f for f in FORMATS_G] + ["isomorphic", "canonical", "diff", "describe"]
     for union in (False, True):
@@ -326,9 +375,11 @@ def bounds(tier):
                           "len, membership, 8 slice shapes, restricted triples()/quads(), subjects/objects/predicates/value/graphs(), "
                           "operators + - * ^, read calls naming the graph by a Graph object of another store, path evaluation"
                           % ("" if tier == "quick" else "-3"),
+            "purity-from": "queries with FROM / FROM NAMED naming a loadable local document, on a Dataset with 1-2 symbolic triples: the dataset's "
+                           "graphs and quads are unchanged (the document parse itself runs untraced)",
             "purity-ser": "shape-symbolic only (9 symbolic booleans = membership of 3 concrete triples in 3 graphs, all 512 cases): every "
                           "serializer, isomorphic, to_canonical_graph, graph_diff, DESCRIBE; run untraced",
-            "outside": "parse-time side effects, stores other than Memory, RAND/NOW/UUID queries"}
+            "outside": "stores other than Memory, RAND/NOW/UUID queries"}
 
 
 def finding_key(ob, cex, reason):
